@@ -189,3 +189,155 @@ def gen_c07_corpus(rng, tier):
                 case += ["from_bytes " + k, "hdr " + k, "hdrw " + k]
             cases.append(case)
     return cases
+
+
+def load_view(pe, data):
+    """reference-free helper for the generators: lay the file out as a mapped image (sections at
+    their virtual addresses); used only to have *some* mapped-looking buffers, never as an oracle"""
+    lay = pe.layout
+    soi = lay["size_of_image"]
+    if soi > (1 << 22):
+        return None
+    out = bytearray(soi)
+    n = min(lay["size_of_headers"], len(data), soi)
+    out[:n] = data[:n]
+    for s in pe.sections:
+        k = min(s.vs, s.rs)
+        if s.va + k <= soi and s.prd + k <= len(data):
+            out[s.va:s.va + k] = data[s.prd:s.prd + k]
+    return bytes(out)
+
+
+def plant(rng, pe):
+    """put interesting content into section data: C strings with and without terminator at the
+    end of the raw data, sentinel-terminated arrays, length-prefixed wide strings"""
+    for s in pe.sections:
+        if not s.rs:
+            continue
+        d = bytearray(s.data)
+        n = len(d)
+        for _ in range(rng.randrange(1, 6)):
+            pos = rng.randrange(0, n)
+            kind = rng.random()
+            if kind < 0.4:
+                txt = bytes(rng.choice(b"abcXYZ09_.") for _ in range(rng.randrange(0, 12))) + b"\0"
+                d[pos:pos + len(txt)] = txt[:max(0, n - pos)]
+            elif kind < 0.7:
+                w = rng.choice([1, 2, 4, 8])
+                pos -= pos % w
+                cnt = rng.randrange(0, 6)
+                arr = b"".join((rng.randrange(1, 1 << (8 * w))).to_bytes(w, "little") for _ in range(cnt)) + bytes(w)
+                d[pos:pos + len(arr)] = arr[:max(0, n - pos)]
+            else:
+                pos -= pos % 2
+                cnt = rng.randrange(0, 5)
+                ws = struct.pack("<H", cnt) + bytes(rng.randrange(256) for _ in range(2 * cnt))
+                d[pos:pos + len(ws)] = ws[:max(0, n - pos)]
+        # tail of the raw data: no terminator in half of the cases
+        if rng.random() < 0.5 and n >= 4:
+            d[n - 4:n] = b"wxyz" if rng.random() < 0.5 else b"wx\0\0"
+        s.data = bytes(d[:n])
+
+
+def gen_c05(rng, tier):
+    cases = []
+    nimg = 40 if tier == "quick" else 1500
+    types = ["u8", "u16", "u32", "u64"]
+    tsize = {"u8": 1, "u16": 2, "u32": 4, "u64": 8}
+    for n in range(nimg):
+        pe = simple_pe(rng)
+        if not pe.sections or rng.random() < 0.1:
+            pe = simple_pe(rng, nsec=rng.choice([1, 2, 3]))
+        if rng.random() < 0.25:
+            # image bases near the end of the address space
+            pe.image_base = rng.choice([0xFFFF0000, 0xFFFFF000, 0xFFFFFFFF, 0x10000]) if pe.bits == 32 else rng.choice([0xFFFFFFFFFFFF0000, 0xFFFFFFFFFFFFFFFF, 0x7FFFFFFF0000, 0x10000])
+        plant(rng, pe)
+        data = pe.build()
+        lay = pe.layout
+        view = load_view(pe, data)
+        soi = lay["size_of_image"]
+        for mode in ("file", "view"):
+            buf = data if mode == "file" else view
+            if buf is None:
+                continue
+            k = ("f%d" if mode == "file" else "v%d") % pe.bits
+            base = pe.image_base
+            if mode == "view" and rng.random() < 0.4:
+                base = rng.choice([0, 1, 0x1000, 0xFFFFF000, 0xFFFFFFFF, (1 << 64) - 0x2000, (1 << 64) - 1, 0x7FF000000000]) & ((1 << pe.bits) - 1)
+                k = "%s@0x%x" % (k, base)
+            kw = ("wf" if mode == "file" else "wv")
+            case = [img_line(rng, buf), "from_bytes " + k.split("@")[0]]
+            rvas = set([0, 1, soi - 1, soi, soi + 1, lay["size_of_headers"], lay["size_of_headers"] - 1, U32])
+            for s in pe.sections:
+                for e in (0, 1, 2, 3, 4, 8, s.rs - 8, s.rs - 4, s.rs - 2, s.rs - 1, s.rs, s.vs - 1, s.vs, s.vs + 1):
+                    rvas.add((s.va + e) & U32)
+                for _ in range(4):
+                    rvas.add(s.va + rng.randrange(0, max(s.rs, 1)))
+            rvas = sorted(rvas)
+            M = (1 << pe.bits) - 1
+            for r in rvas:
+                va = (base + r) & M
+                case.append("r2v %s 0x%x" % (k, r))
+                case.append("v2r %s 0x%x" % (k, va))
+                al = rng.choice([1, 2, 4, 8])
+                mn = rng.choice([0, 1, 4, 16])
+                case.append("slice %s 0x%x %d %d" % (k, r, mn, al))
+                case.append("read %s 0x%x %d %d" % (k, va, mn, al))
+                t = rng.choice(types)
+                case.append("derva %s %s 0x%x" % (k, t, r)); case.append("deref %s %s 0x%x" % (k, t, va))
+                case.append("derva_copy %s %s 0x%x" % (k, t, r)); case.append("deref_copy %s %s 0x%x" % (k, t, va))
+                ln = rng.choice([0, 1, 3, 8, 17])
+                case.append("derva_into %s %d 0x%x" % (k, ln, r)); case.append("deref_into %s %d 0x%x" % (k, ln, va))
+                ln = rng.choice([0, 1, 2, 5, 0x100, 1 << 30, 1 << 61, 1 << 63])
+                case.append("derva_slice %s %s 0x%x %d" % (k, t, r, ln)); case.append("deref_slice %s %s 0x%x %d" % (k, t, va, ln))
+                se = rng.choice([0, 0, 0, 1, 0xFF])
+                case.append("derva_slice_s %s %s 0x%x %d" % (k, t, r, se)); case.append("deref_slice_s %s %s 0x%x %d" % (k, t, va, se))
+                case.append("derva_cstr %s 0x%x" % (k, r)); case.append("deref_cstr %s 0x%x" % (k, va))
+                if rng.random() < 0.15:
+                    case.append("derva %s %s 0x%x" % (kw, t, r)); case.append("derva_cstr %s 0x%x" % (kw, r))
+                    case.append("derva_slice_s %s %s 0x%x 0" % (kw, t, r)); case.append("derva_copy %s %s 0x%x" % (kw, t, r))
+            # va edge cases
+            for va in (0, 1, base, (base - 1) & M, (base + soi) & M, (base + soi + 1) & M, M):
+                case.append("v2r %s 0x%x" % (k, va)); case.append("read %s 0x%x 0 1" % (k, va)); case.append("deref_copy %s u32 0x%x" % (k, va))
+            cases.append(case)
+    return cases
+
+
+def gen_c06(rng, tier):
+    """file -> view -> file conversions; the full address / typed-read stream on the file view and
+    on the view over the converted buffer"""
+    cases = []
+    nimg = 40 if tier == "quick" else 1200
+    for n in range(nimg):
+        pe = simple_pe(rng, nsec=rng.choice([1, 2, 3, 4, 6]))
+        plant(rng, pe)
+        data = pe.build()
+        if rng.random() < 0.3:
+            adversarial_sections(rng, pe, len(data))
+            data = pe.build()
+        lay = pe.layout
+        kf, kv = "f%d" % pe.bits, "v%d" % pe.bits
+        rvas = set([1, lay["size_of_headers"] - 1, lay["size_of_headers"], lay["size_of_image"] - 1])
+        for s in pe.sections:
+            for e in (0, 1, min(s.vs, s.rs) - 1, min(s.vs, s.rs), s.rs - 1, s.rs, s.vs - 1, s.vs):
+                rvas.add((s.va + e) & U32)
+            for _ in range(3):
+                rvas.add(s.va + rng.randrange(0, max(min(s.rs, s.vs), 1)))
+        rvas = sorted(r for r in rvas if 0 <= r <= U32)
+        q = []
+        for r in rvas:
+            q.append(("derva_copy %s u32 0x%x", r)); q.append(("derva_cstr %s 0x%x", r)); q.append(("derva_into %s 8 0x%x", r))
+            q.append(("derva_slice_s %s u16 0x%x 0", r)); q.append(("slice %s 0x%x 1 1", r))
+        case = [img_line(rng, data), "from_bytes " + kf, "to_view " + kf]
+        case += [fmt % (kf, r) for fmt, r in q]
+        case += ["img_to_view " + kf, "from_bytes " + kv]
+        case += [fmt % (kv, r) for fmt, r in q]
+        case += ["hdr " + kv, "to_file " + kv, "img_to_file " + kv, "from_bytes " + kf, "hdr " + kf]
+        case += [fmt % (kf, r) for fmt, r in q]
+        cases.append(case)
+    # the repository's own binaries
+    for fn, data in corpus_files():
+        bits = 64 if b"\x0b\x02" == data[data[0x3C] + 24:data[0x3C] + 26] else 32
+        case = [img_line(rng, data, 0, "e"), "to_view f%d" % bits, "img_to_view f%d" % bits, "hdr v%d" % bits, "to_file v%d" % bits]
+        cases.append(case)
+    return cases
